@@ -7,6 +7,9 @@
 \*   legacy-all+all  EmitAll, no VIEW, Shape = pairs: every maximal behaviour of 2 requests at limit-1, 3 at limit-2, 4 at limit-3
 \*   mc:n4   quick tier: the code as it is with 4 requests (Variants = none, one and two instances), no generation;
 \*           the quick tier generates from n in {2,3}; the thorough tier runs legacy+gen+mc with n in {2,3,4}
+\*   Retries = 1 (jobs with a VIEW): after everything ended, MakeRoom and one Retry / RetryOther of a refused request;
+\*           invariants RetryOK (never turned away for a reason other than the limit, except through the named deviation
+\*           ClaimBeforeQuota) and RetryAdmitted (the code as it is: admitted); 0 in the maximal-behaviour jobs
 \* bounds: NS = {2,3,4}, Lims = {0,1,2} (3: caps with separate check and insert, 4 requests, 3 free slots), occupancy
 \* limit-slack at the start (slack 1..3), each request admitted at most once
 CONSTANTS
@@ -19,6 +22,7 @@ CONSTANTS
   MaxReRel = @@RR@@
   Slacks = @@SLACKS@@
   Listers = @@LISTERS@@
+  Retries = @@RETRIES@@
   FixedKinds = {"conncap", "maplimit", "maplive", "codequota", "mapquota"}
   WithRelease = @@REL@@
   Emit = @@EMIT@@
